@@ -40,3 +40,41 @@ func revCountScenario(c *sup.Ctx) {
 	}
 	c.Sample(map[string]any{"disk": disk, "handles": handles, "result": res})
 }
+
+// refusedWriteScenario: writes refused inside their transaction by an expression index (conc.RefusedWriteRun).
+func refusedWriteScenario(c *sup.Ctx) {
+	r := rng.New(c.Seed, rng.HashString("C17refused"), uint64(c.Local))
+	disk := c.Local%2 == 1
+	variant := (c.Local / 2) % 3
+	coll := (c.Local / 6) % 2
+	m, err := conc.OpenMulti(c.Tmp, disk, 1, 2)
+	if err != nil {
+		c.Incon("cannot open bucket: " + err.Error())
+		return
+	}
+	defer m.Close()
+	steps := 40 + r.Intn(40)
+	res, msg, detail := conc.RefusedWriteRun(m, coll, variant, steps, r)
+	c.Count("refused_write_runs", 1)
+	c.Count("refused_write_calls", int64(res.Calls))
+	c.Count("refused_write_calls_acknowledged", int64(res.Acked))
+	c.Count("refused_write_calls_refused", int64(res.Refused))
+	c.Count("writes_refused_inside_their_transaction", int64(res.InTxn))
+	c.Count("refused_write_events_checked", int64(res.EventsSeen))
+	for k, n := range res.RefusedBy {
+		c.Cell(fmt.Sprintf("refused-write|%s|%s|%s|refused", ifStr(disk, "disk", "mem"), res.Index, k))
+		_ = n
+	}
+	for k := range res.AckedBy {
+		c.Cell(fmt.Sprintf("refused-write|%s|%s|%s|ok", ifStr(disk, "disk", "mem"), res.Index, k))
+	}
+	if msg != "" {
+		kind, text := splitKind(msg)
+		if kind == "setup" {
+			c.Incon(text)
+		} else {
+			c.Viol([]string{"C17"}, "refused-write|"+kind, text, detail)
+		}
+	}
+	c.Sample(map[string]any{"disk": disk, "collection": coll, "result": res})
+}
